@@ -29,18 +29,25 @@ def combos():
     yield ('use_function_syntax_for_execution_context','omit_panic_handler','omit_complexity')
 def run(job):
     probe, opts, n = job
-    name = '%s_o%d' % (probe, n)
-    d = base+'/repo/verif_probes/'+name
-    shutil.copytree(base+'/repo/verif_probes/'+probe, d)
+    if probe.startswith('ts:'):
+        src = base+'/repo/codegen/testserver/'+probe[3:]; name = '%s_o%d' % (probe[3:], n); d = base+'/repo/codegen/testserver/'+name
+        oldimp, newimp = 'codegen/testserver/'+probe[3:], 'codegen/testserver/'+name
+    else:
+        src = base+'/repo/verif_probes/'+probe; name = '%s_o%d' % (probe, n); d = base+'/repo/verif_probes/'+name
+        oldimp, newimp = 'verif_probes/'+probe, 'verif_probes/'+name
+    shutil.copytree(src, d, ignore=shutil.ignore_patterns('*_test.go'))
     for r,_,fs in os.walk(d):
         for f in fs:
             if f.endswith(('.go','.yml')):
                 p=os.path.join(r,f); s=open(p).read()
-                s=s.replace('verif_probes/'+probe+'/','verif_probes/'+name+'/').replace('verif_probes/'+probe+'"','verif_probes/'+name+'"').replace('verif_probes/'+probe+'\n','verif_probes/'+name+'\n')
+                for tail in ('/','"','\n'): s=s.replace(oldimp+tail,newimp+tail)
                 open(p,'w').write(s)
     with open(d+'/gqlgen.yml','a') as f:
         f.write('\n'+''.join('%s: %s\n' % ((o.split('=')[0], o.split('=')[1]) if '=' in o else (o,'true')) for o in opts))
-    p = subprocess.run([gen,'-config','gqlgen.yml'],cwd=d,env=env,capture_output=True,text=True)
+    args=[gen,'-config','gqlgen.yml']
+    if os.path.exists(d+'/stub.go'): args+=['-stub','stub.go']
+    if os.path.exists(d+'/resolver.go') and probe.startswith('ts:'): os.remove(d+'/resolver.go')
+    p = subprocess.run(args,cwd=d,env=env,capture_output=True,text=True)
     if p.returncode != 0:
         return (name, opts, 'GENERATE', (p.stdout+p.stderr)[-1500:])
     p = subprocess.run(['go','vet','./...'],cwd=d,env=env,capture_output=True,text=True)
